@@ -3,8 +3,8 @@
 Design-phase feasibility probe.  Heap objects are concrete Python graphs; scalars may be z3 terms;
 branching on a symbolic scalar forks (re-execution with a decision prefix, solver-pruned).
 """
-import re, sys, math, itertools
-from mirparse import parse_mir, Func
+import re, sys, math, itertools, time, struct
+from .mirparse import parse_mir, Func, parse_operand
 import z3
 
 sys.setrecursionlimit(100000)
@@ -200,6 +200,7 @@ class Machine:
         self.src_dir = src_dir
         self.step_limit = step_limit
         self.steps = 0
+        self.total_steps = 0
         self.statics = {}
         self.promoted_cache = {}
         self.stdout = []
@@ -207,11 +208,21 @@ class Machine:
         self.impl_index = {}  # (type, trait|None, method) -> func name
         self.free_index = {}
         self.solver = z3.Solver()
+        self.solver.push()
         self.pc = []          # path condition (z3 bools)
-        self.decisions = []   # replay prefix
+        self.decisions = []   # replay prefix: list of (tag, value); tag 'b' branch, 'c' choose, 'z' concretize
         self.dpos = 0
         self.pending = []     # alternative prefixes discovered
-        self.stats = {'solver_calls': 0, 'forks': 0}
+        self.stats = {'solver_calls': 0, 'sat': 0, 'unsat': 0, 'forks': 0, 'solver_s': 0.0}
+        self.covered = {}     # MIR function name -> times entered
+        self.models_used = {}  # std model key -> times called
+        self.concrete_inputs = None   # dict name -> python value (concrete re-run mode)
+        self.inputs = {}      # name -> Sym (symbolic mode) for model extraction
+        self.vfs = {}
+        self.timer = None     # modelled ThreadTimer state
+        self.depth = 0
+        self.max_depth = 3000
+        self._resolve_cache = {}
         self._index_source()
         self._index_funcs()
 
@@ -248,6 +259,30 @@ class Machine:
                     mm = re.match(r'\s*(\w+)', v)
                     if mm: names.append(mm.group(1))
                 self.enums[name] = names
+        self.structs = {}
+        self.variant_fields = {}   # (enum, variant) -> [field names] for struct-like variants
+        for lines in self.src.values():
+            txt = '\n'.join(lines)
+            txt = re.sub(r'//[^\n]*', '', txt)
+            for m in re.finditer(r'\bstruct\s+(\w+)(?:<[^>]*>)?\s*\{', txt):
+                i = m.end(); depth = 1; j = i
+                while depth:
+                    c = txt[j]
+                    if c == '{': depth += 1
+                    elif c == '}': depth -= 1
+                    j += 1
+                body = txt[i:j - 1]
+                self.structs[m.group(1)] = re.findall(r'(?:pub\s+)?(\w+)\s*:', re.sub(r'<[^<>]*(?:<[^<>]*(?:<[^<>]*>[^<>]*)*>[^<>]*)*>', '', body))
+            for m in re.finditer(r'\benum\s+(\w+)\s*\{', txt):
+                i = m.end(); depth = 1; j = i
+                while depth:
+                    c = txt[j]
+                    if c == '{': depth += 1
+                    elif c == '}': depth -= 1
+                    j += 1
+                body = re.sub(r'#\[[^\]]*\]', '', txt[i:j - 1])
+                for vm in re.finditer(r'(\w+)\s*\{([^}]*)\}', body):
+                    self.variant_fields[(m.group(1), vm.group(1))] = re.findall(r'(\w+)\s*:', re.sub(r'<[^<>]*>', '', vm.group(2)))
         self.enums['Option'] = ['None', 'Some']
         self.enums['Result'] = ['Ok', 'Err']
         self.enums['ControlFlow'] = ['Continue', 'Break']
@@ -288,29 +323,50 @@ class Machine:
 
     # ---------------------------------------------------------- symbolic control
     def fresh(self, name, ty):
+        if self.concrete_inputs is not None:
+            if name not in self.concrete_inputs:
+                raise Unsupported('concrete re-run lacks input ' + name)
+            return self.concrete_inputs[name]
+        if name in self.inputs:
+            return self.inputs[name]
         if ty == 'bool':
-            return Sym(z3.Bool(name), 'bool')
-        if ty == 'f64':
-            return Sym(z3.FP(name, z3.Float64()), 'f64')
-        if ty == 'char':
-            return Sym(z3.BitVec(name, 32), 'char')
-        return Sym(z3.BitVec(name, INT_BITS[ty]), ty)
+            v = Sym(z3.Bool(name), 'bool')
+        elif ty == 'f64':
+            v = Sym(z3.FP(name, z3.Float64()), 'f64')
+        elif ty == 'char':
+            v = Sym(z3.BitVec(name, 32), 'char')
+        else:
+            v = Sym(z3.BitVec(name, INT_BITS[ty]), ty)
+        self.inputs[name] = v
+        return v
+
+    def _check(self, extra=None):
+        t0 = time.time()
+        self.stats['solver_calls'] += 1
+        if extra is not None:
+            self.solver.push(); self.solver.add(extra)
+        r = self.solver.check()
+        if extra is not None:
+            self.solver.pop()
+        self.stats['solver_s'] += time.time() - t0
+        if r == z3.sat: self.stats['sat'] += 1
+        elif r == z3.unsat: self.stats['unsat'] += 1
+        else: raise Unsupported('solver returned unknown: ' + self.solver.reason_unknown())
+        return r == z3.sat
+
+    def add_pc(self, e):
+        self.pc.append(e)
+        self.solver.add(e)
 
     def assume(self, cond):
         if isinstance(cond, Sym):
-            self.pc.append(cond.e)
-            self.stats['solver_calls'] += 1
-            if self.solver_check(self.pc) != z3.sat:
+            e = z3.simplify(cond.e)
+            if z3.is_true(e): return
+            self.add_pc(e)
+            if z3.is_false(e) or not self._check():
                 raise PathInfeasible()
         elif not cond:
             raise PathInfeasible()
-
-    def solver_check(self, conds):
-        self.solver.push()
-        for c in conds: self.solver.add(c)
-        r = self.solver.check()
-        self.solver.pop()
-        return r
 
     def branch(self, cond):
         """Decide a symbolic boolean; returns python bool, recording/forking."""
@@ -320,88 +376,93 @@ class Machine:
         if z3.is_true(e): return True
         if z3.is_false(e): return False
         if self.dpos < len(self.decisions):
-            d = self.decisions[self.dpos]; self.dpos += 1
-            self.pc.append(e if d else z3.Not(e))
+            tag, d = self.decisions[self.dpos]; self.dpos += 1
+            if tag != 'b': raise Unsupported('decision replay desync (expected b, got %s)' % tag)
+            self.add_pc(e if d else z3.Not(e))
             return d
-        self.stats['solver_calls'] += 2
-        can_t = self.solver_check(self.pc + [e]) == z3.sat
-        can_f = self.solver_check(self.pc + [z3.Not(e)]) == z3.sat
+        can_t = self._check(e)
+        can_f = self._check(z3.Not(e))
         if can_t and can_f:
             self.stats['forks'] += 1
-            self.pending.append(self.decisions[:self.dpos] + [False])
-            self.decisions = self.decisions[:self.dpos] + [True]; self.dpos += 1
-            self.pc.append(e)
+            self.pending.append(self.decisions[:self.dpos] + [('b', False)])
+            self.decisions = self.decisions[:self.dpos] + [('b', True)]; self.dpos += 1
+            self.add_pc(e)
             return True
         if not can_t and not can_f:
             raise PathInfeasible()
         d = can_t
-        self.decisions = self.decisions[:self.dpos] + [d]; self.dpos += 1
-        self.pc.append(e if d else z3.Not(e))
+        self.decisions = self.decisions[:self.dpos] + [('b', d)]; self.dpos += 1
+        self.add_pc(e if d else z3.Not(e))
         return d
 
-    def choose(self, n):
+    def choose(self, n, tag='c'):
         """fork over range(n) (structural nondeterminism, no solver needed)"""
+        if n <= 0: raise PathInfeasible()
         if self.dpos < len(self.decisions):
-            d = self.decisions[self.dpos]; self.dpos += 1
+            t, d = self.decisions[self.dpos]; self.dpos += 1
+            if t != tag: raise Unsupported('decision replay desync (expected %s, got %s)' % (tag, t))
             return d
         for k in range(n - 1, 0, -1):
-            self.pending.append(self.decisions[:self.dpos] + [k])
-        self.decisions = self.decisions[:self.dpos] + [0]; self.dpos += 1
+            self.pending.append(self.decisions[:self.dpos] + [(tag, k)])
+        self.decisions = self.decisions[:self.dpos] + [(tag, 0)]; self.dpos += 1
         return 0
 
-    def concretize(self, v, lo=None, hi=None):
+    def concretize(self, v, limit=64):
         """fork a symbolic integer over all its feasible values (must be few)"""
         if not isinstance(v, Sym): return v
-        # enumerate feasible values via solver
+        e = z3.simplify(v.e)
+        if z3.is_bv_value(e):
+            val = e.as_long()
+            return wrap_int(val, v.ty) if v.ty in INT_BITS else val
+        if self.dpos < len(self.decisions):
+            tag, val = self.decisions[self.dpos]; self.dpos += 1
+            if tag != 'z': raise Unsupported('decision replay desync (expected z, got %s)' % tag)
+            self.add_pc(v.e == val)
+            return wrap_int(val, v.ty) if v.ty in INT_BITS else val
         vals = []
         self.solver.push()
-        for c in self.pc: self.solver.add(c)
-        while len(vals) < 64:
-            self.stats['solver_calls'] += 1
-            if self.solver.check() != z3.sat: break
-            m = self.solver.model()
-            val = m.eval(v.e, model_completion=True).as_long()
+        while len(vals) <= limit:
+            if not self._check(): break
+            mdl = self.solver.model()
+            val = mdl.eval(v.e, model_completion=True).as_long()
             vals.append(val)
             self.solver.add(v.e != val)
         self.solver.pop()
         if not vals: raise PathInfeasible()
+        if len(vals) > limit: raise Unsupported('concretize: more than %d feasible values' % limit)
         vals.sort()
-        k = self.choose(len(vals))
-        val = vals[k]
-        self.pc.append(v.e == val)
+        for other in vals[:0:-1]:
+            self.pending.append(self.decisions[:self.dpos] + [('z', other)])
+        val = vals[0]
+        self.decisions = self.decisions[:self.dpos] + [('z', val)]; self.dpos += 1
+        self.add_pc(v.e == val)
         return wrap_int(val, v.ty) if v.ty in INT_BITS else val
 
-    def explore(self, harness, max_paths=100000):
-        """run harness(self) over all feasible paths; harness raises AssertionError on violation."""
-        results = []
-        work = [[]]
-        npaths = 0
-        while work and npaths < max_paths:
-            prefix = work.pop()
-            self.reset(prefix)
-            try:
-                r = harness(self)
-                status = 'ok'
-            except PathInfeasible:
-                r = None; status = 'infeasible'
-            work.extend(self.pending)
-            if status != 'infeasible':
-                npaths += 1
-                results.append((list(self.decisions), r))
-        return results
-
-    def reset(self, prefix):
+    def reset(self, prefix=(), concrete_inputs=None):
         self.decisions = list(prefix); self.dpos = 0; self.pending = []; self.pc = []
-        self.steps = 0; self.stdout = []
+        self.solver.pop(); self.solver.push()
+        self.total_steps += self.steps
+        self.steps = 0; self.stdout = []; self.depth = 0
         self.statics = {}
+        self.inputs = {}
+        self.timer = None
+        self.concrete_inputs = concrete_inputs
+        if concrete_inputs is not None:
+            # concrete re-run: only structural decisions are replayed
+            self.decisions = [d for d in self.decisions if d[0] == 'c']
 
     def model(self):
-        self.solver.push()
-        for c in self.pc: self.solver.add(c)
-        assert self.solver.check() == z3.sat
-        m = self.solver.model()
-        self.solver.pop()
-        return m
+        if not self._check():
+            raise Unsupported('final path condition unsat')
+        return self.solver.model()
+
+    def model_inputs(self):
+        """concrete value for every symbolic input created on this path"""
+        mdl = self.model()
+        out = {}
+        for name, s in self.inputs.items():
+            out[name] = model_value(mdl, s)
+        return out
 
     # ---------------------------------------------------------- function resolution
     def resolve(self, callee):
@@ -454,8 +515,19 @@ class Machine:
         if isinstance(func, str):
             kind = self.resolve(func)
             if kind[0] == 'model':
+                self.models_used[kind[2]] = self.models_used.get(kind[2], 0) + 1
                 return kind[1](self, func, args)
             func = kind[1]
+        self.covered[func.name] = self.covered.get(func.name, 0) + 1
+        self.depth += 1
+        if self.depth > self.max_depth:
+            raise StepLimit('call depth')
+        try:
+            return self._run(func, args)
+        finally:
+            self.depth -= 1
+
+    def _run(self, func, args):
         frame = {-1: func}
         for i, a in enumerate(args):
             frame[i + 1] = Cell(a)
@@ -464,7 +536,7 @@ class Machine:
         while True:
             for st in blocks[bb]:
                 self.steps += 1
-                if self.steps > self.step_limit: raise StepLimit()
+                if self.steps > self.step_limit: raise StepLimit('steps')
                 k = st[0]
                 if k == 'assign':
                     v = self.rvalue(frame, st[2])
@@ -673,7 +745,7 @@ class Machine:
         if k == 'array':
             return ArrV([self.operand(frame, o) for o in rv[1]])
         if k == 'adt':
-            return self.make_adt(rv[1], [self.operand(frame, o) for o in rv[2]])
+            return self.make_adt(rv[1], [self.operand(frame, o) for o in rv[2]], rv[3])
         if k == 'closure':
             return Closure(rv[1], [self.operand(frame, o) for o in rv[2]])
         if k == 'len':
@@ -691,14 +763,22 @@ class Machine:
         c = self.place_cell(frame, place)
         return Ptr(c, 'ref' if kind in ('shared', 'mut') else 'raw')
 
-    def make_adt(self, path, vals):
+    def make_adt(self, path, vals, names=None):
         p = strip_generics(path)
         parts = split_path(p)
         last = parts[-1]
         # enum variant?
         if len(parts) >= 2 and parts[-2] in self.enums and last in self.enums[parts[-2]]:
             ty = parts[-2]
+            if names:
+                decl = self.variant_fields.get((ty, last))
+                if decl and sorted(decl) == sorted(names) and decl != names:
+                    vals = [vals[names.index(n)] for n in decl]
             return Agg(ty, last, self.enums[ty].index(last), vals)
+        if names and last in self.structs:
+            decl = self.structs[last]
+            if sorted(decl) == sorted(names) and decl != names:
+                vals = [vals[names.index(n)] for n in decl]
         if len(parts) == 1 and last in ('Less', 'Equal', 'Greater'):
             return Agg('Ordering', last, ['Less', 'Equal', 'Greater'].index(last) - 1, vals)
         # struct
@@ -833,7 +913,6 @@ _opcache = {}
 
 
 def parse_operand_cached(s):
-    from mirparse import parse_operand
     r = _opcache.get(s)
     if r is None: r = _opcache[s] = parse_operand(s)
     return r
@@ -867,6 +946,24 @@ def seq_cells(v):
     if isinstance(v, ArrV): return v.items
     if isinstance(v, SliceRef): return v.cells()
     raise Unsupported(f'not a sequence: {v!r}')
+
+
+
+def model_value(mdl, s):
+    """python value of Sym s under z3 model mdl"""
+    v = mdl.eval(s.e, model_completion=True)
+    if s.ty == 'bool':
+        return z3.is_true(v)
+    if s.ty == 'f64':
+        bv = mdl.eval(z3.fpToIEEEBV(s.e), model_completion=True)
+        if z3.is_bv_value(bv):
+            bits = bv.as_long()
+        else:   # NaN has no unique encoding
+            bits = 0x7ff8000000000000
+        return struct.unpack('<d', struct.pack('<Q', bits))[0]
+    if s.ty == 'char':
+        return chr(v.as_long())
+    return wrap_int(v.as_long(), s.ty)
 
 
 # ------------------------------------------------------------------ names
@@ -952,4 +1049,4 @@ def model(*keys):
     return deco
 
 
-import models  # noqa: E402  (registers std models)
+from . import models  # noqa: E402
